@@ -38,14 +38,14 @@ func cookieList(cs []*http.Cookie) string {
 }
 
 type sessStep struct {
-	sid      string   // session cookie presented ("" = none)
-	client   []string // other client cookies name=value (may include extra "sess=" duplicates)
-	host     string
-	path     string
-	set      []string // backend Set-Cookie header values
-	gotBack  []*http.Cookie
-	gotSet   []*http.Cookie
-	newSid   string
+	sid     string   // session cookie presented ("" = none)
+	client  []string // other client cookies name=value (may include extra "sess=" duplicates)
+	host    string
+	path    string
+	set     []string // backend Set-Cookie header values
+	gotBack []*http.Cookie
+	gotSet  []*http.Cookie
+	newSid  string
 }
 
 func suiteSessions(e *vh.Env) {
@@ -128,6 +128,15 @@ func suiteSessions(e *vh.Env) {
 				}
 				st.set = append(st.set, sc)
 			}
+			if !simple && rng.Chance(12) {
+				// values Go's cookie parser rejects (browsers accept them): possibly the only Set-Cookie of the response
+				bad := rng.Pick([]string{`prefs={"theme":"dark"}; Path=/`, `bad name=1; Path=/`, `back\\slash=a\\b`, `=novalue`, `sp ace`})
+				if rng.Chance(60) {
+					st.set = []string{bad}
+				} else {
+					st.set = append(st.set, bad)
+				}
+			}
 			req := httptest.NewRequest("GET", "http://"+st.host+st.path, nil)
 			req.Host = st.host
 			var ck []string
@@ -188,6 +197,11 @@ func suiteSessions(e *vh.Env) {
 			for _, c := range st.gotBack {
 				if c.Name == sessName {
 					e.Fail("C10:session-cookie-forwarded", fmt.Sprintf("case %d: the session cookie reached the backend", i), i, nil, nil, nil)
+				}
+			}
+			for _, raw := range rw.Header()["Set-Cookie"] {
+				if !strings.HasPrefix(raw, sessName+"=") {
+					e.Fail("C10:backend-cookie-leaked", fmt.Sprintf("case %d: client received the backend's Set-Cookie %q (backend sent %q)", i, raw, st.set), i, nil, raw, nil)
 				}
 			}
 			issued := ""
